@@ -68,6 +68,15 @@ def gen_layout(rng, members, feature):
         lay["folders"] = [(c, [i]) for c, p in lay["folders"] for i in p]    # one stream per folder
     elif feature == "folder-crc-solid":
         lay["crc_place"] = "folder"
+    elif feature == "folder-crc-mixed":
+        # single-stream folders (their CRC is the folder's, they have no entry in the SubStreamsInfo digest vector) BEFORE
+        # and between folders with several streams (whose digests are in that vector)
+        lay["crc_place"] = "folder"
+        if len(streams) >= 3:
+            cut = rng.randrange(2, len(streams))
+            lay["folders"] = [(rng.choice(chains), [streams[0]]), (rng.choice(chains), streams[1:cut])] + \
+                ([(rng.choice(chains), [streams[cut]])] if cut < len(streams) else []) + \
+                ([(rng.choice(chains), streams[cut + 1:])] if cut + 1 < len(streams) else [])
     elif feature == "no-crc":
         lay["crc_place"] = "none"
     elif feature == "partial-crc":
@@ -106,7 +115,7 @@ def gen_layout(rng, members, feature):
         lay["packpos"] = rng.choice([0, 1, 7, 53, 300])
         lay["dummy"] = rng.choice([0, 0, 2, 5])
         lay["header"] = rng.choice(["raw", "lzma"])
-        lay["crc_place"] = rng.choice(["sub", "sub", "none", "partial"])
+        lay["crc_place"] = rng.choice(["sub", "sub", "none", "partial", "folder"])
         lay["nonminimal"] = rng.random() < 0.2
         lay["emptyfile_vector"] = rng.random() < 0.8
     return lay
@@ -155,7 +164,7 @@ def tweak_members(rng, members, feature):
     return ms
 
 
-FEATURES = ["plain", "multi-folder", "nonsolid", "folder-crc", "folder-crc-solid", "no-crc", "partial-crc", "nums-explicit",
+FEATURES = ["plain", "multi-folder", "nonsolid", "folder-crc", "folder-crc-solid", "folder-crc-mixed", "no-crc", "partial-crc", "nums-explicit",
             "no-substreams", "packcrc", "packpos", "dummy", "no-emptyfile-vector", "header-lzma", "header-aes", "aes", "nonminimal",
             "partial-mtime", "no-mtime", "partial-attr", "no-attr", "ctime-atime", "win-attr", "combo", "big-solid"]
 
@@ -188,6 +197,23 @@ def _py7zr_read(job):
             p.seek(0)
             got[n] = p.read()
         out["bytes"] = got
+    # the same archive through a stream that returns SHORT reads (as a multi-volume file does at every volume
+    # boundary): what a read() returns is never more than a prime number of bytes
+    if len(data) > 600:
+        class ShortIO(io.BytesIO):
+            def read(self, n=-1):
+                return super().read(251 if n is None or n < 0 or n > 251 else n)
+        try:
+            with py7zr.SevenZipFile(ShortIO(data), "r", **kw) as z:
+                fac = py7zr.io.BytesIOFactory(1 << 26)
+                z.extractall(factory=fac)
+                got2 = {}
+                for n, p in fac.products.items():
+                    p.seek(0)
+                    got2[n] = p.read()
+            out["short_reads"] = "same" if got2 == got else "differs: " + ",".join(sorted(n for n in got if got2.get(n) != got[n]))[:200]
+        except Exception as e:  # noqa
+            out["short_reads"] = "raised " + type(e).__name__
     # extraction into a directory: the post-pass (times, modes) runs only here
     import tempfile, shutil, stat as st_
     tmp = tempfile.mkdtemp(prefix="verif_c06x_")
@@ -233,6 +259,8 @@ def compare(members, got):
     norm = [(g if w is None else w.replace("\\", "/")) for g, w in zip(got["names"], want_names)]
     if got["names"] != norm or len(got["names"]) != len(want_names):
         return ["names %r != %r" % (got["names"][:5], want_names[:5])]
+    if got.get("short_reads", "same") != "same":
+        diffs.append("through a stream with short reads the extraction " + got["short_reads"])
     seen = {}
     for m, li, me in zip(members, got["list"], got["meta"]):
         nm = li[0]
